@@ -183,7 +183,11 @@ func init() {
 					Id: id, IdempotencyKey: key(r), Strict: r.chance(0.3), State: pick(r, []promise.State{promise.Resolved, promise.Rejected, promise.Canceled}),
 					Value: promise.Value{Headers: map[string]string{"n": fmt.Sprint(n)}, Data: []byte(fmt.Sprintf("value%d", n))}}}
 			default:
-				switch r.intn(4) {
+				switch r.intn(5) {
+				case 4:
+					// a search racing the writers and the deadline (its lazily timed-out view must agree with the rows)
+					return &t_api.Request{Kind: t_api.SearchPromises, SearchPromises: &t_api.SearchPromisesRequest{
+						Id: "*", States: []promise.State{promise.Pending, promise.Resolved, promise.Rejected, promise.Canceled, promise.Timedout}, Limit: 5}}
 				case 0:
 					return &t_api.Request{Kind: t_api.ReadPromise, ReadPromise: &t_api.ReadPromiseRequest{Id: id}}
 				case 1:
